@@ -379,6 +379,9 @@ theorem stmt_inv (orig : Bytes) (key : UInt32) : ∀ (st : MStmt) (s : MState),
   | .loop n words adv, s, hwf, hs => by
     simp only [runStmt]
     exact loop_inv orig key n words adv hwf _ s hs
+  | .once n words adv, s, hwf, hs => by
+    simp only [runStmt]
+    exact loop_inv orig key n words adv (by simpa [stmtWF] using hwf) 1 s hs
   | .tail, _, hwf, _ => by simp [stmtWF] at hwf
   | .unknown _, _, hwf, _ => by simp [stmtWF] at hwf
 theorem stmts_inv (orig : Bytes) (key : UInt32) : ∀ (sts : List MStmt) (s : MState),
